@@ -53,7 +53,7 @@ func TestMain(m *testing.M) {
 	}
 	core.DeclareFaults("preemption", "preemption-inside-tink-call", "task-finished-handover", "free-run-fallback", "blocked-on-lock-handover")
 	core.DeclareProbes("globally-sourced-randomness(semantic oracle)", "legacy-adapter", "kms-envelope-aead", "kms-envelope-aead-with-context", "multi-key-keyset", "handle-reads", "construct-under-schedule",
-		"registry-lookup", "keygen-under-schedule", "accept-rejects-corrupted", "race-build", "monitored-handle", "monitoring-events-compared", "round-robin-plan", "site-targeted-plan", "reparse-construct-under-schedule", "prehash-signing-path")
+		"registry-lookup", "keygen-under-schedule", "accept-rejects-corrupted", "race-build", "monitored-handle", "monitoring-events-compared", "round-robin-plan", "site-targeted-plan", "process-cold-start", "reparse-construct-under-schedule", "prehash-signing-path")
 	// "keygen-not-a-function-of-the-reader(semantic oracle)" is not declared: it cannot occur while GODEBUG
 	// cryptocustomrand=1 holds (the orchestrator forces it) and every tink key generator reads crypto/rand.Reader
 	stubkm.Register()
@@ -347,6 +347,23 @@ func runSched(t *rapid.T) {
 	}
 	r.Logf("scenario=%s class=%s primary=%s keys=%d", scenario, sh.class, sh.entry.Name, len(es))
 
+	// ---- process cold start: package-level lazily initialised state (a cache filled on first use, a table built by
+	// the first caller) is cold exactly once per process and key type — and everything below (pre-produced outputs, the
+	// run-alone phase) would warm it up. So the very first time this worker process meets a (class, key type), and then
+	// one run in sixteen, 2..4 tasks make their first "produce" calls under a round-robin plan before anything else has
+	// used the freshly built primitives; afterwards the same calls are made alone and compared.
+	ckey := sh.class + "/" + sh.entry.KeyType + "/" + scenario
+	// (everything the cold start needs is drawn in every run, whether it takes place or not: what a run draws must not
+	// depend on what the process has seen before, or a re-execution of the same draws would be another run)
+	cp := drawColdPlan(t)
+	if sh.acc != nil && (!coldSeen[ckey] || cp.again) {
+		coldSeen[ckey] = true
+		if key, detail := coldStart(cp, r, g, sh, &lane); key != "" {
+			r.Violation(key, detail)
+			return
+		}
+	}
+
 	// pre-produced valid outputs for accept operations; also find out whether the producer is a function of its RNG lane
 	for i := 0; i < 2; i++ {
 		msg, aux := slice(t, fmt.Sprintf("pre%d.msg", i)), slice(t, fmt.Sprintf("pre%d.aux", i))
@@ -385,6 +402,45 @@ func runSched(t *rapid.T) {
 		}
 	}
 
+	var plan []simsched.Step
+	// ---- concurrent phase: on a COLD twin of the shared object — the keyset re-read from its serialized form and
+	// primitives nobody has used yet — so that lazily initialised state is first touched under the schedule, not
+	// warmed up by the sequential oracle
+	concurrentOnce := func() (*simsched.Sched, [][]result, [][]simmon.Event, int) {
+		cold, err := coldTwin(sh, monitored)
+		if err != nil {
+			t.Fatalf("harness: cannot build the cold twin of %s: %v", sh.entry.Name, err)
+		}
+		got := make([][]result, nTasks)
+		fns := make([]func(), nTasks)
+		for i := range tasks {
+			i := i
+			g.SetOffset(i, 0)
+			got[i] = make([]result, 0, len(tasks[i]))
+			fns[i] = func() {
+				for _, o := range tasks[i] {
+					out, err := o.run(cold)
+					got[i] = append(got[i], result{out, err != nil})
+				}
+			}
+		}
+		s := simsched.New(plan)
+		mon.Reset()
+		mon.SetLaneFunc(s.Current)
+		g.SetLaneFunc(s.Current)
+		s.OnPass = onPass
+		discardRaceLog() // reports of runs that were dropped unjudged must not key the next genuine race
+		before := raceErrors()
+		s.Run(fns)
+		races := raceErrors() - before
+		lane = 14
+		g.SetLaneFunc(func() int { return lane })
+		ev := make([][]simmon.Event, nTasks)
+		for i := range ev {
+			ev[i] = append([]simmon.Event{}, mon.Events[i]...)
+		}
+		return s, got, ev, races
+	}
 	// ---- sequential oracle: every task alone, on its own RNG lane
 	expected := make([][]result, nTasks)
 	expectedEvents := make([][]simmon.Event, nTasks)
@@ -437,7 +493,7 @@ func runSched(t *rapid.T) {
 		maxSteps = 64
 	}
 	nSteps := rapid.IntRange(1, maxSteps).Draw(t, "nSteps")
-	plan := make([]simsched.Step, nSteps)
+	plan = make([]simsched.Step, nSteps)
 	// run lengths are log-uniform: every scale — the first statements of a call as well as the deep interior of a
 	// multi-million-statement signature — is equally likely to receive a preemption
 	maxExp := 1
@@ -506,44 +562,6 @@ func runSched(t *rapid.T) {
 		}
 	}
 
-	// ---- concurrent phase: on a COLD twin of the shared object — the keyset re-read from its serialized form and
-	// primitives nobody has used yet — so that lazily initialised state is first touched under the schedule, not
-	// warmed up by the sequential oracle
-	concurrentOnce := func() (*simsched.Sched, [][]result, [][]simmon.Event, int) {
-		cold, err := coldTwin(sh, monitored)
-		if err != nil {
-			t.Fatalf("harness: cannot build the cold twin of %s: %v", sh.entry.Name, err)
-		}
-		got := make([][]result, nTasks)
-		fns := make([]func(), nTasks)
-		for i := range tasks {
-			i := i
-			g.SetOffset(i, 0)
-			got[i] = make([]result, 0, len(tasks[i]))
-			fns[i] = func() {
-				for _, o := range tasks[i] {
-					out, err := o.run(cold)
-					got[i] = append(got[i], result{out, err != nil})
-				}
-			}
-		}
-		s := simsched.New(plan)
-		mon.Reset()
-		mon.SetLaneFunc(s.Current)
-		g.SetLaneFunc(s.Current)
-		s.OnPass = onPass
-		discardRaceLog() // reports of runs that were dropped unjudged must not key the next genuine race
-		before := raceErrors()
-		s.Run(fns)
-		races := raceErrors() - before
-		lane = 14
-		g.SetLaneFunc(func() int { return lane })
-		ev := make([][]simmon.Event, nTasks)
-		for i := range ev {
-			ev[i] = append([]simmon.Event{}, mon.Events[i]...)
-		}
-		return s, got, ev, races
-	}
 	monitoringDiffers := false
 	softDiffers := false
 	// judge compares one concurrent execution with the sequential oracle; "" = agrees
@@ -717,6 +735,107 @@ func runSched(t *rapid.T) {
 		passClass = "1-2"
 	}
 	r.End(fmt.Sprintf("%s|%s|%s|ops:%s|tasks%d|pre%s|%x", scenario, sh.class, sh.entry.KeyType, strings.Join(uniq(opNames), ","), nTasks, passClass, hsh&0xffff), inside > 0)
+}
+
+// coldSeen: the (class, key type, scenario) combinations this process has already put through a cold start.
+var coldSeen = map[string]bool{}
+
+// coldStart runs 2..4 tasks, one "produce" each, under a round-robin plan on the not yet used primitives of sh, then
+// makes the same calls alone and compares ("" = nothing to report). A violation found here depends on state that is
+// cold only once per process, so it is confirmed by the orchestrator's fresh-process re-run, not in-process.
+type coldPlan struct {
+	again    bool
+	n        int
+	q        uint32
+	msg, aux [4][]byte
+}
+
+func drawColdPlan(t *rapid.T) coldPlan {
+	cp := coldPlan{again: rapid.IntRange(0, 15).Draw(t, "coldStartAgain") == 0, n: rapid.IntRange(2, 4).Draw(t, "coldTasks"),
+		q: uint32(rapid.SampledFrom([]int{1, 1, 2, 3, 5, 8, 20, 60}).Draw(t, "coldQuantum"))}
+	for i := 0; i < 4; i++ {
+		cp.msg[i], cp.aux[i] = slice(t, fmt.Sprintf("cold%d.msg", i)), slice(t, fmt.Sprintf("cold%d.aux", i))
+	}
+	return cp
+}
+
+func coldStart(cp coldPlan, r *core.Run, g *simrng.RNG, sh *shared, lane *int) (string, string) {
+	n, q := cp.n, cp.q
+	type call struct {
+		msg, aux, out []byte
+		err           error
+	}
+	calls := make([]*call, n)
+	fns := make([]func(), n)
+	for i := range calls {
+		c := &call{msg: cp.msg[i], aux: cp.aux[i]}
+		calls[i] = c
+		g.SetOffset(i, 1<<30)
+		fns[i] = func() { c.out, c.err = sh.prod.Produce(c.msg, c.aux) }
+	}
+	plan := make([]simsched.Step, 256)
+	for i := range plan {
+		plan[i] = simsched.Step{RunFor: q, SwitchTo: simsched.Next}
+	}
+	s := simsched.New(plan)
+	g.SetLaneFunc(s.Current)
+	discardRaceLog()
+	before := raceErrors()
+	s.Run(fns)
+	races := raceErrors() - before
+	*lane = 14
+	g.SetLaneFunc(func() int { return *lane })
+	r.Probe("process-cold-start")
+	kt := sh.class + "/" + sh.entry.KeyType
+	if s.Aborted {
+		core.CountGlobal("free-run-fallback")
+		return "", ""
+	}
+	if s.Deadlock {
+		lockPoisoned = true
+		return "C18/deadlock:" + kt, "cold start: every task waits for a lock that none of them can release"
+	}
+	if len(s.Panics) > 0 {
+		// does the call also panic alone? then it is not about concurrency
+		alone := func() (p any) {
+			defer func() { p = recover() }()
+			_, _ = sh.prod.Produce(calls[0].msg, calls[0].aux)
+			return nil
+		}()
+		if alone == nil {
+			return "C18/panic:" + kt, fmt.Sprintf("cold start: a first produce call panicked under the schedule (not when run alone): %v", s.Panics[0])
+		}
+		core.CountGlobal("panic-when-run-alone:" + sh.entry.KeyType)
+		return "", ""
+	}
+	for i, c := range calls {
+		*lane = i
+		g.SetOffset(i, 1<<30)
+		out, err := sh.prod.Produce(c.msg, c.aux)
+		*lane = 14
+		if (err != nil) != (c.err != nil) {
+			return "C18/result-differs:" + kt + ":produce", fmt.Sprintf("cold start: task %d produce: error=%v when run alone, error=%v under the schedule", i, err != nil, c.err != nil)
+		}
+		if err != nil || bytes.Equal(out, c.out) {
+			continue
+		}
+		if sh.prod.Deterministic {
+			return "C18/result-differs:" + kt + ":produce", fmt.Sprintf("cold start: task %d: the deterministic result under the schedule differs from the result when run alone", i)
+		}
+		if aerr := sh.acc.Accept(c.out, c.msg, c.aux); aerr != nil {
+			return "C18/result-invalid:" + kt + ":produce", fmt.Sprintf("cold start: task %d: the result under the schedule is not accepted by the recipient: %v", i, aerr)
+		}
+	}
+	if races > 0 {
+		loc, text := lastRaceReport()
+		for _, l := range strings.Split(text, "\n") {
+			r.Logf("  %s", l)
+		}
+		if loc != "unlocated" && !strings.HasPrefix(loc, "unknown") {
+			return "C18/race:" + loc, fmt.Sprintf("the race detector reported %d data race(s) during the cold start of %s", races, kt)
+		}
+	}
+	return "", ""
 }
 
 // lockPoisoned: a run of this process ended in a deadlock (see runSched).
